@@ -15,7 +15,9 @@ Definition sstep := (Z * Z * Z)%type.
    txs.EthereumEventToEthBridgeClaim refuses (recipient with a wrong checksum, "eth" with a token address) by a nonce
    whose last two digits are 50 or more; the loop logs such an event and goes on with the next one *)
 Fixpoint assoc_events (evs : list (Z * list Z)) (b : Z) : list Z :=
-  match evs with [] => [] | (b', l) :: r => if b' =? b then filter (fun n => n mod 100 <? 50) l else assoc_events r b end.
+  match evs with [] => [] | (b', l) :: r => if b' =? b then l else assoc_events r b end.
+Definition scenario_events (evs : list (Z * list Z)) : Z -> list Z :=
+  translatable_events (fun n => n mod 100 <? 50) (assoc_events evs).
 
 (* observation tokens: [1; from; to; code] a log query (code 0 ok, 1 failed, 2 killed), [2; nonce] a submitted claim,
    [3; cursor] the persisted cursor *)
@@ -48,7 +50,7 @@ Definition dLoopCase : dec (Z * list (Z * list Z) * list sstep * list Z) :=
 
 Definition loop_mismatch (c : Z * list (Z * list Z) * list sstep * list Z) : option (Z * Z) :=
   let '(id, evs, steps, obs) := c in
-  let model := run_obs (assoc_events evs) init steps in
+  let model := run_obs (scenario_events evs) init steps in
   if list_eqb Z.eqb model obs then None else Some (id, Z.of_nat (length (filter (fun x => x) (map (fun p => Z.eqb (fst p) (snd p)) (combine model obs))))).
 
 Definition loop_mismatches (raw : list (list int)) : list (Z * Z) := check_all dLoopCase loop_mismatch raw.
